@@ -1,15 +1,17 @@
 #!/bin/bash
-# confirm_mutant.sh <worktree dir> <demo command…>
+# confirm_mutant.sh <worktree dir> <patch file> <demo command…>
+# (no `git stash`: stashes are shared between worktrees)
 # 1. demo with the change must fail; 2. demo without must pass; 3. the test suite with the
 # change must fail exactly the baseline's always-fail set. Writes <dir>/CONFIRM.txt
-d=$1; shift
+d=$1; patch=$2; shift; shift
 cd "$d" || exit 2
 export CARGO_TARGET_DIR=$d/target
 out=$d/CONFIRM.txt; : > $out
+git checkout -q -- src && git apply "$patch" || { echo "patch does not apply" >> $out; cat $out; exit 2; }
 "$@" > $d/demo_with.log 2>&1; echo "demo with change: exit $?" >> $out
-git stash -q
+git checkout -q -- src
 "$@" > $d/demo_without.log 2>&1; echo "demo without change: exit $?" >> $out
-git stash pop -q
+git apply "$patch"
 cargo nextest run --workspace --no-fail-fast --test-threads 8 --offline > $d/suite.log 2>&1
 grep "Summary" $d/suite.log >> $out
 grep "FAIL \[" $d/suite.log | sed 's/.*super_speedy_syslog_searcher //' | sort -u > $d/suite_fails.txt
